@@ -290,10 +290,12 @@ func parseFor(t *Tree, start Pos) (*ForNode, error) {
 		return nil, err
 	}
 	var ifCond Expr
+	var ifPos Pos
 	if tok.tokenType == tokenName {
 		if tok.value != "if" {
 			return nil, newUnexpectedValueError(tok, "if")
 		}
+		ifPos = tok.Pos
 		ifCond, err = t.parseExpr()
 		if err != nil {
 			return nil, err
@@ -309,7 +311,7 @@ func parseFor(t *Tree, start Pos) (*ForNode, error) {
 		return nil, err
 	}
 	if ifCond != nil {
-		body = NewIfNode(ifCond, body, nil, tok.Pos)
+		body = NewIfNode(ifCond, body, nil, ifPos)
 	}
 	t.backup()
 	tok = t.next()
